@@ -36,6 +36,7 @@ SHAPED = [
     mrec("d", "w"),                   # hits the synonym of the previous one
     mrec("e", "xy"),                  # URI prefix nested inside/around x (no match, but the trie must order them)
     mrec("b", "y", [], ["yy"]),       # an already registered pair that brings only a fresh URI-prefix synonym
+    mrec("a", "a"),                   # the two sides are separate name spaces: a URI prefix may equal a CURIE prefix
 ]
 RECS = PLAIN + SHAPED
 # a second, small alphabet explored in its own BFS (keeps the main one affordable)
@@ -51,7 +52,7 @@ AUX_RECS = [
 
 INITS = [
     [],
-    [mrec("a", "x", ["b"], ["y"])],
+    [mrec("a", "x", ["b", "B2"], ["y", "Y2"])],   # synonym lists that are not in sorted order
     [mrec("a", "x", [], [], PAT), mrec("b", "y")],
     [mrec("A", "X"), mrec("a", "x")],
     [mrec("f", "xyzq", ["g"])],   # only a long URI prefix: later additions register shorter ones
@@ -69,8 +70,8 @@ def all_ops(tier, aux=False):
     return ops
 
 
-QUERY_PREFIXES = ["a", "A", "b", "c", "d", "e", "f", "g", "ß", "SS", "ss", "k", "h", "", "zz"]
-QUERY_URIS = ["x", "X", "y", "z", "w", "xy", "q", "xyzq", "v", "V", "v2", "hu", "yy"]
+QUERY_PREFIXES = ["a", "A", "b", "B2", "c", "d", "e", "f", "g", "ß", "SS", "ss", "k", "h", "", "zz"]
+QUERY_URIS = ["x", "X", "y", "Y2", "z", "w", "xy", "q", "xyzq", "v", "V", "v2", "hu", "yy", "a"]
 
 
 def queries():
@@ -145,6 +146,7 @@ def execute(case, ctx=None):
         last = step == len(ops) - 1
         before = canon(conv)
         before_views = views(conv)
+        before_ordered = [(r.prefix, r.uri_prefix, list(r.prefix_synonyms), list(r.uri_prefix_synonyms), r.pattern) for r in conv.records]
         r = rec_from_json(op["rec"])
         exc = apply_op(conv, op)
         outcome, idx = model.add_record(r, case_sensitive=op["cs"], merge=op["merge"])
@@ -169,6 +171,9 @@ def execute(case, ctx=None):
         if exc is not None:
             if after != before or views(conv) != before_views:
                 fails.append(("C05/rejected-call-changed-state", f"{where}: rejected but the converter changed"))
+                break
+            if [(r.prefix, r.uri_prefix, list(r.prefix_synonyms), list(r.uri_prefix_synonyms), r.pattern) for r in conv.records] != before_ordered:
+                fails.append(("C05/rejected-call-reordered-records-or-synonyms", f"{where}: rejected, but the records list or a synonym list is in a different order afterwards"))
                 break
         else:
             if record_set(conv) != model.record_set():
